@@ -76,14 +76,14 @@ def make_history(base, cfg, r, n_commits=None, kind=None):
             vals = [F.rand_value(r, ps, big=big) for _ in cols]
             if alias:
                 vals[0] = None
-            con.execute(f"INSERT INTO t0 VALUES ({','.join('?' * ncols)})", vals)
+            con.execute(f"INSERT INTO t0 ({','.join(cols)}) VALUES ({','.join('?' * ncols)})", vals)
 
     con.execute("BEGIN")
     ins(base_rows, big=r.random() < 0.5)
     if kind == "overflow_inplace":
         for _ in range(3):
             vals = [None if alias else 1] + [bytes(r.randint(0, 255) for _ in range(3 * ps + 17)) for _ in cols[1:]]
-            con.execute(f"INSERT INTO t0 VALUES ({','.join('?' * ncols)})", vals)
+            con.execute(f"INSERT INTO t0 ({','.join(cols)}) VALUES ({','.join('?' * ncols)})", vals)
     con.execute("COMMIT")
     # everything so far goes into the database file
     con.execute("PRAGMA wal_checkpoint(TRUNCATE)")
